@@ -20,7 +20,7 @@ type (
 )
 
 func ParseTree(e sx.Sexp) (parent []int, forked []bool) {
-	must(!hasStatic(e), "no static node in concurrent lines")
+	must(!hasStatic(e) && !hasStaticW(e), "no static node in concurrent lines")
 	for _, b := range tsNodes(e) {
 		must(!b, "no type-set loader in concurrent lines")
 	}
